@@ -5,7 +5,7 @@ import os
 from .. import export_data, tlc
 from ..common import MachineryError, Run, dump_ndjson, pmap, rng_for, scratch
 
-N_PRES = {"quick": 4, "thorough": 12}
+N_PRES = {"quick": 6, "thorough": 14}
 
 
 def _work(args):
@@ -23,7 +23,7 @@ def _work(args):
         else:
             # walk through the catalogue of basis changes so that every group meets every kind
             at, pres = crystals.present(c["atoms"], rng, p_index=(sg + stream + j) % len(crystals.PRESENT_P),
-                                        unwrap=bool(j % 3 == 2))
+                                        unwrap=bool(j % 3 == 2), primitive=bool(j % 2 == 1))
         r = {"ev": "chiral", "sg": sg, "cid": "%d/%d" % (sg, stream), "j": j, "pres": pres, "letters": c["letters"]}
         try:
             # the same crystal, re-presented: skip presentations whose group an independent search cannot confirm
@@ -61,7 +61,7 @@ def run(tier):
                 first = r["tid"]
             r["first"] = first
             recs.append(r)
-            run.nontrivial((r["cid"], r["pres"].get("p_index"), r["j"]))
+            run.nontrivial((r["cid"], r["pres"].get("p_index"), r["j"], r["pres"].get("primitive")))
     run.count(len(recs))
     run.notes["presentations_skipped_unconfirmed_group"] = skipped
     run.notes["groups_without_generated_crystal"] = nogen
